@@ -207,6 +207,9 @@ class KeyCache(t.Generic[P, T]):
         self.key_f: t.Callable[P, t.Any] = key_f
         self.inner_f: t.Callable[P, T] = f
         self.cache: t.Dict[t.Tuple[t.Tuple[t.Any, ...], t.Tuple[t.Tuple[str, t.Any], ...]], t.Any] = {}
+        # arguments of each cached call, kept alive as long as its entry. `key_f` may key on the
+        # `id()` of an argument, which is only unique while that argument is alive.
+        self._refs: t.Dict[t.Any, t.Any] = {}
 
         self._root: t.List[t.Any] = []
         self._root[:] = [self._root, self._root, None, None]
@@ -221,6 +224,7 @@ class KeyCache(t.Generic[P, T]):
             if result is not self._missing:
                 return t.cast(T, result)
             result = self.inner_f(*args, **kwargs)
+            self._refs[key] = (args, kwargs)
             self.cache[key] = result
             return result
 
@@ -256,10 +260,13 @@ class KeyCache(t.Generic[P, T]):
                 oldresult = self._root[RESULT]  # type: ignore # noqa: F841 (we want to keep this around for a bit)
                 self._root[KEY] = self._root[RESULT] = None
                 del self.cache[oldkey]
+                del self._refs[oldkey]
+                self._refs[key] = (args, kwargs)
                 self.cache[key] = oldroot
             else:
                 last = self._root[PREV]
                 link = [last, self._root, key, result]
+                self._refs[key] = (args, kwargs)
                 last[NEXT] = self._root[PREV] = self.cache[key] = link
                 self.full = (len(self.cache) >= self.maxsize)
         return result
